@@ -138,6 +138,33 @@ func propC06(c *Ctx) {
 		"GetNextL1Sequence / IncreaseNextL1Sequence agree on the default (1) and the helper stores default+1 on first use; Query/NextL1Sequence returns the getter unmodified")
 	c.NotDecided = append(c.NotDecided, "exactly-once over delivery schedules as a history statement (follows from the per-message step rule under A2/A3)")
 	c.Assumptions = append(c.Assumptions, "A1", "A2", "A3 (Sequence.Next returns the stored value and stores +1)", "A10")
+	// the deposit counter survives a genesis import: the importer stores data.NextL1Sequence (and
+	// nothing else) into NextL1Sequence, whichever helper performs the write
+	c.Rule("C06.R5", func() {
+		imp := c.Method(childKeeper, "Keeper", "InitGenesis")
+		o := c.Ob("C06.R5", "opchild InitGenesis: NextL1Sequence := data.NextL1Sequence and NextL2Sequence := data.NextL2Sequence on every returning path")
+		po := PO{Params: []string{"k", "ctx", "data"}, Visits: 2, NoInline: []string{"SetParams", "Keeper).SetValidator", "SetValidatorByConsAddr", "SetLastValidatorPower", "Keeper).GetValidator", "ApplyAndReturnValidatorSetUpdates", "ABCIValidatorUpdate", ".Validate"}}
+		for _, p := range c.Paths(imp, po) {
+			o.Paths++
+			if p.Panic {
+				continue
+			}
+			o.Sites++
+			for _, f := range []string{"NextL1Sequence", "NextL2Sequence"} {
+				sets := collEvents(p, len(p.Events), f, "Set")
+				if len(sets) != 1 || strip(p.Events[sets[0]].Call.Args[2]).Key() != "data."+f {
+					got := "nothing"
+					if len(sets) > 0 {
+						got = trunc(strip(p.Events[sets[0]].Call.Args[2]).Key(), 80)
+					}
+					o.Fail(c.W.Pos(imp.Pos()), fmt.Sprintf("%s restored %d time(s) from %s (want once, from data.%s)", f, len(sets), got, f), c.Dump(p, -1))
+				}
+			}
+		}
+		if o.Sites == 0 {
+			o.Fail(c.W.Pos(imp.Pos()), "no returning import path", nil)
+		}
+	})
 	fn := childHandler(c, "FinalizeTokenDeposit")
 	noop := c.constVal(childTypes, "NOOP")
 
@@ -914,6 +941,11 @@ func propC09(c *Ctx) {
 		"NextL2Sequence is written only by the increment helper and the genesis setter; each increment is followed on success by exactly one withdrawal event carrying that value")
 	c.NotDecided = append(c.NotDecided, "the supply sum itself (A4: MintCoins/BurnCoins change supply by exactly the stated coins)")
 	c.Assumptions = append(c.Assumptions, "A1", "A2", "A3", "A4", "A10")
+	// a failed credit leaves no minted coin behind: commit and the success flag are ordered on
+	// every flow, a panic in the transfer included (the recovering defer turns it into "failed")
+	c.Rule("C09.R7", func() {
+		successAfterCommit(c, c.Ob("C09.R7", "safeDepositToken: the cache is committed and success raised only on the straight-line flow after mint and send (no deferred / panic-time commit)"), c.Method(childKeeper, "MsgServer", "safeDepositToken"))
+	})
 	eff := c.W.BuildEffects()
 
 	c.Rule("C09.R1", func() {
